@@ -207,6 +207,20 @@ Definition tab_opt (o : option (tensor nat)) : option (list nat * list nat) :=
 Definition matricize_enc (s ol il : list nat) := tab_opt (matricize (enc s) ol il).
 Definition transpose_enc (s fl ll : list nat) := tab_opt (transpose_by_leg_list (enc s) fl ll).
 
+(* comparison inside Coq (keeps the printed output small): the implementation's entries are passed in as
+   binary numbers; result = the model's shape and the first position where the entries differ *)
+Fixpoint first_diff (a b : list N) (i : nat) : option nat :=
+  match a, b with
+  | [], [] => None
+  | x :: a', y :: b' => if N.eqb x y then first_diff a' b' (S i) else Some i
+  | _, _ => Some i
+  end.
+Definition cmp_enc (o : option (list nat * list nat)) (impl_entries : list N) : option (list nat * option nat) :=
+  match o with
+  | Some (sh, es) => Some (sh, first_diff (map N.of_nat es) impl_entries 0)
+  | None => None
+  end.
+
 Definition dummy_qr (md : mode) (m n : nat) (M : matrix nat) : matrix nat * matrix nat :=
   (fun _ _ => 0, fun _ _ => 0).
 Definition dummy_svd (md : mode) (m n : nat) (M : matrix nat) : matrix nat * (nat -> nat) * matrix nat :=
